@@ -415,6 +415,56 @@ def run(index, rep, tier):
                   "worker namespaces are rebuilt from the master's labels in the master's order (same label -> same bit)",
                   "taxon_labels handed to the workers is not the master's namespace in iteration order: split bitmasks from different workers would not be comparable")
 
+    # ---- R06.8 worker and master agree on the bit of every taxon
+    with rep.section("R06.8"):
+        rep.rule("R06.8", "worker and master give every taxon the same bit: the label list handed to the workers is the master namespace in iteration order, each worker builds its namespace from exactly that list, and nothing in sumtrees removes a taxon from a namespace (bits follow accession order, so a gap in the master would not be reproduced by the worker)")
+        par = index.function(ST + ".TreeProcessor.parallel_analyze_trees")
+        wini = index.function(ST + ".TreeAnalysisWorker.__init__")
+        n8 = 0
+        # (a) master side: taxon_labels = [t.label for t in <namespace>] passed unchanged
+        wc = [c for c in calls_in(par.node) if call_name(c) == "TreeAnalysisWorker"]
+        if len(wc) != 1 or get_kwarg(wc[0], "taxon_labels") is None:
+            raise AnalysisError("R06.8: worker construction in parallel_analyze_trees not recognised")
+        arg = get_kwarg(wc[0], "taxon_labels")
+        defs = [a for a in walk_no_nested(par.node) if isinstance(a, ast.Assign) and isinstance(arg, ast.Name) and norm(a.targets[0]) == arg.id]
+        mta = [c for c in calls_in(par.node) if call_name(c) == "TreeArray"]
+        master_ns = norm(get_kwarg(mta[0], "taxon_namespace")) if mta and get_kwarg(mta[0], "taxon_namespace") is not None else None
+        ok_a = False
+        if len(defs) == 1 and isinstance(defs[0].value, ast.ListComp) and len(defs[0].value.generators) == 1:
+            lc = defs[0].value
+            gen = lc.generators[0]
+            ok_a = (not gen.ifs) and norm(gen.iter) == master_ns and isinstance(lc.elt, ast.Attribute) and lc.elt.attr == "label" and norm(lc.elt.value) == norm(gen.target)
+        n8 += 1
+        rep.check(ok_a, "R06.8", par.qualname, "worker label list is not the master namespace in order", fn_where(par, defs[0] if defs else wc[0]), "workers get [t.label for t in %s], the namespace of the master array" % master_ns,
+                  "parallel_analyze_trees hands the workers `%s` as their taxon labels while the master array counts splits over `%s`: the workers number their taxa from that list, so unless it is exactly the master namespace in iteration order (unfiltered, unsorted) the split bitmasks that come back denote other taxa and the merged counts are credited to the wrong splits - the parallel summary differs from the serial one" % (norm(defs[0].value)[:70] if defs else norm(arg), master_ns))
+        # (b) worker side: namespace built from exactly that list
+        wparam = "taxon_labels"
+        st = [a for a in walk_no_nested(wini.node) if isinstance(a, ast.Assign) and norm(a.targets[0]) == "self.taxon_namespace"]
+        if len(st) != 1:
+            raise AnalysisError("R06.8: worker namespace construction not recognised")
+        v = st[0].value
+        src_ok = isinstance(v, ast.Call) and call_name(v) == "TaxonNamespace" and len(v.args) == 1 and not [k for k in v.keywords if k.arg not in ("label", "is_mutable")]
+        if src_ok:
+            a0 = v.args[0]
+            if isinstance(a0, ast.Attribute) and norm(a0.value) == "self":
+                back = [a for a in walk_no_nested(wini.node) if isinstance(a, ast.Assign) and norm(a.targets[0]) == norm(a0)]
+                src_ok = len(back) == 1 and norm(back[0].value) == wparam
+            else:
+                src_ok = norm(a0) == wparam
+        n8 += 1
+        rep.check(src_ok, "R06.8", wini.qualname, "worker namespace not built from the label list as given", fn_where(wini, st[0]), "TreeAnalysisWorker builds TaxonNamespace(taxon_labels) from the list as given",
+                  "TreeAnalysisWorker.__init__ builds its namespace as `%s`: only a namespace filled from the master's label list in the order given assigns every taxon the bit it has in the master; any reordering, filtering or extra taxon shifts the bits and the merged split counts are credited to the wrong splits" % norm(v)[:80])
+        # worker trees are read into that namespace
+        # (c) nothing in sumtrees shrinks a namespace
+        SHRINK = ("remove_taxon", "remove_taxon_label", "discard_taxon_label", "discard_taxon_labels", "remove_taxon_labels", "discard_taxa", "remove_taxa")
+        for fi in index.functions_in_module(ST):
+            for c in calls_in(fi.node, nested=True):
+                if call_name(c) in SHRINK or (call_name(c) == "clear" and "namespace" in norm(c.func)):
+                    rep.check(False, "R06.8", fi.qualname, "sumtrees removes a taxon from a namespace: " + norm(c)[:50], fn_where(fi, c), "",
+                              "%s calls `%s`: a namespace that has lost a taxon keeps a gap in its bit assignment, which the workers - who rebuild their namespaces from the label list - do not have; every split involving a later taxon then comes back from the workers under another bitmask than the serial run uses" % (fi.qualname, norm(c)[:60]))
+            n8 += 1
+        rep.floor("R06.8", "bit-agreement obligations", 10, n8)
+
 
 def _root_of(e):
     while isinstance(e, (ast.Attribute, ast.Subscript, ast.Call)):
@@ -433,3 +483,4 @@ def _inside_loop(fn_node, stmt):
                 if any(x is stmt for x in ast.walk(s)):
                     return True
     return False
+
